@@ -98,11 +98,18 @@ func collectRaces(run *lib.Run, raceLog string) {
 			for _, s := range st[:2] {
 				f := s.firstOf(annPrefix)
 				if f == "" {
-					// no frame of the code under test: the access is made by the harness itself
-					harness = true
 					f = s.firstOf("main.")
-					if f == "" && len(s.frames) > 0 {
-						f = s.frames[0]
+					switch f {
+					case "main.doSend", "main.doCanSend", "main.doStatus":
+						// these harness functions do nothing but call one MConnection method; when the
+						// report shows no p2p frame below them the access is inside that (frame-less) call
+						f = annPrefix + "gemmill/p2p.(*MConnection)." + map[string]string{"main.doSend": "Send|TrySend", "main.doCanSend": "CanSend", "main.doStatus": "Status"}[f]
+					default:
+						// no frame of the code under test: the access is made by the harness itself
+						harness = true
+						if f == "" && len(s.frames) > 0 {
+							f = s.frames[0]
+						}
 					}
 				}
 				if strings.HasPrefix(f, annPrefix+"gemmill/p2p.") {
